@@ -409,3 +409,7 @@ class KeyDiscipline(Contract):
         else:
             yield "fold_in_roots_distinct_for_distinct_iterations", z3.Implies(t1 != t2, Key.F(k, t1) != Key.F(k, t2))
             yield "fold_in_root_differs_from_split_halves", z3.And(Key.F(k, t1) != Key.L(k), Key.F(k, t1) != Key.R(k))
+
+from vt.contract import track as _track  # noqa: E402
+
+_track(STAGE.calls, J.cond_p.binds, J.scan_p.binds)
